@@ -8,6 +8,7 @@ implementation; every analysed frame is entered (C03.R2), so every such load is 
 ``_ref_types`` equals the node classes whose visitors load a template at run time; in
 find_referenced_templates every branch for a non-constant template expression yields
 (a name or None).  Also: the compiler never writes the symbol tables.  
+Also: Node.find_all iterates every child field.  
 Not decided: data-dependent lookups through getattr on the context object.
 """
 
